@@ -24,7 +24,7 @@ ASSUMPTIONS = [
 ]
 MIN_COUNTERS = {
     "quick": {"cases_compared": 150, "rng_leaves": 1500, "kind_choose": 40, "kind_shuffle": 40, "kind_draw": 20, "with_rejection": 15, "with_disabled_items": 40, "scenario_form": 30},
-    "thorough": {"cases_compared": 3000, "rng_leaves": 30000, "kind_choose": 800, "kind_shuffle": 800, "kind_draw": 400, "with_rejection": 300, "with_disabled_items": 800, "scenario_form": 600},
+    "thorough": {"cases_compared": 3000, "rng_leaves": 30000, "kind_choose": 800, "kind_shuffle": 800, "kind_draw": 400, "with_rejection": 300, "with_disabled_items": 800, "scenario_form": 500},
 }
 MANIFEST_ENTRY = {
     "technique": "runtime monitoring: exact RNG-branch enumeration of real simulations vs closed-form reference distribution",
@@ -350,7 +350,7 @@ def real(case, scenario):
 
 
 def plan(tier, seed):
-    n_cases = 256 if tier == "quick" else 6000
+    n_cases = 256 if tier == "quick" else 4096
     n_sh = 16 if tier == "quick" else 64
     return [{"shard": i, "cases": n_cases // n_sh, "timeout": 1500 if tier == "quick" else 3400} for i in range(n_sh)]
 
